@@ -33,6 +33,7 @@ package circuitbreaker
 //@   ensures[reported-iff-own-cas]{C12} gToOpen == old(gToOpen) + (ok ? nListeners() : 0) && (ok && nListeners() > 0 ==> gToOpenPrev == Closed) && (ok <==> wrote(deref(b.state), Closed, Open))
 //@   onwrite[legal-edge]{C12} deref(b.state): prev == Closed && new == Open
 //@   onwrite[deadline-before-open]{C12} deref(b.state): new == Open ==> b.nextRetryTimestampMs >= clock_ms + b.retryTimeoutMs
+//@   onwrite[deadline-rearmed-from-now]{C12} b.nextRetryTimestampMs: new == clock_ms + b.retryTimeoutMs
 //@   props C03, C12
 //@   requires baseOK(b)
 //@   ensures[cas] ok <==> old(st(b)) == Closed
@@ -50,6 +51,7 @@ package circuitbreaker
 //@   ensures[reported-iff-own-cas]{C12} gToOpen == old(gToOpen) + (ok ? nListeners() : 0) && (ok && nListeners() > 0 ==> gToOpenPrev == HalfOpen) && (ok <==> wrote(deref(b.state), HalfOpen, Open))
 //@   onwrite[legal-edge]{C12} deref(b.state): prev == HalfOpen && new == Open
 //@   onwrite[deadline-before-open]{C12} deref(b.state): new == Open ==> b.nextRetryTimestampMs >= clock_ms + b.retryTimeoutMs
+//@   onwrite[deadline-rearmed-from-now]{C12} b.nextRetryTimestampMs: new == clock_ms + b.retryTimeoutMs
 //@   props C03, C12
 //@   requires baseOK(b)
 //@   ensures[cas] ok <==> old(st(b)) == HalfOpen
